@@ -87,6 +87,8 @@ def check(run):
     # a populate function may store the raw [0,360) longitude if EVERY caller wraps it right after populating
     _accept_wrap_by_callers(run, P)
     _same_value_two_units(run, P)
+    _derived_from_existing(run, P)
+    _mean_over_real_corners(run, P)
     # centres pass through _normalize_xyz on every return
     for fn in ("_construct_face_centroids", "_construct_edge_centroids"):
         f = P.func(f"uxarray/grid/coordinates.py:{fn}")
@@ -182,3 +184,127 @@ def _same_value_two_units(run, P):
             run.violation("UNIT/one-value-two-units", f"{f.key}:value[{name}]", where(f, call),
                           f"'{name}' is stored under {key} (degrees by the schema) and is also passed unconverted to {sink}(...) (radians): one of the two uses has the wrong unit")
     run.stats["one_value_two_units_candidates"] = n
+
+
+def _tokens(expr, env):
+    """coordinate variables an expression depends on (through locals of the path)"""
+    import re
+    out = set()
+    for n in ast.walk(expr):
+        if isinstance(n, ast.Attribute) and re.match(r"^(node|edge|face)_(lon|lat|x|y|z)$", n.attr):
+            out.add(n.attr)
+        elif isinstance(n, ast.Constant) and isinstance(n.value, str) and re.match(r"^(node|edge|face)_(lon|lat|x|y|z)$", n.value):
+            out.add(n.value)
+        elif isinstance(n, ast.Name) and n.id in env:
+            out |= env[n.id]
+    return out
+
+
+def _derived_from_existing(run, P):
+    """When one representation of an element centre is already stored (e.g. face_lon/face_lat supplied by the file) and the
+    other is being populated, the new one must be computed FROM the stored one: on every path where "<k>_lon" is present,
+    "<k>_x" absent and repopulate is false, the value stored under <k>_x depends on <k>_lon (and vice versa)."""
+    from ..astutil import assigned_names, str_const
+    from ..flow import enumerate_paths
+    n = 0
+    for fname, kind_ in (("_populate_face_centroids", "face"), ("_populate_edge_centroids", "edge"), ("_populate_face_centerpoints", "face")):
+        f = P.try_func(f"uxarray/grid/coordinates.py:{fname}")
+        if f is None:
+            run.incomplete("F-PATH/derived-from-stored", f"{fname}:present", "-", "populate function not found")
+            continue
+        # interprocedural constant: if every call site passes repopulate=True the 'keep what is stored' paths do not exist
+        sites = [c_ for g in P.all_functions() for c_ in ast.walk(g.node) if isinstance(c_, ast.Call) and (dotted(c_.func) or [""])[-1] == fname]
+        def _rep(c_):
+            v = next((k.value for k in c_.keywords if k.arg == "repopulate"), c_.args[1] if len(c_.args) > 1 else None)
+            return isinstance(v, ast.Constant) and v.value is True
+        if sites and all(_rep(c_) for c_ in sites):
+            run.note("F-PATH/derived-from-stored", f"{f.key}:always-repopulate", where(f), f"all {len(sites)} call site(s) pass repopulate=True: both representations are always rewritten together")
+            continue
+        lon_absent = f"'{kind_}_lon' not in grid._ds"
+        x_absent = f"'{kind_}_x' not in grid._ds"
+        for have, want, have_absent, want_absent in ((f"{kind_}_lon", f"{kind_}_x", lon_absent, x_absent), (f"{kind_}_x", f"{kind_}_lon", x_absent, lon_absent)):
+            paths = enumerate_paths(f.node.body)
+            rel = []
+            for p in paths:
+                facts = p.cond_facts()
+                if facts.get(have_absent) is False and facts.get(want_absent) is True and facts.get("repopulate", False) is False:
+                    rel.append(p)
+            c = f"{f.key}:{want}-from-{have}"
+            if not rel:
+                # the function may not branch on this combination at all
+                continue
+            n += 1
+            bad = None
+            for p in rel:
+                env = {}
+                stored = None
+                for e in p.events:
+                    if isinstance(e, ast.Assign) and len(e.targets) == 1:
+                        t = e.targets[0]
+                        toks = _tokens(e.value, env)
+                        if isinstance(t, ast.Subscript) and str_const(t.slice) == want:
+                            stored = (toks, e)
+                        for nm in assigned_names(t):
+                            env[nm] = toks
+                if stored is None:
+                    bad = (p, f"{want} is not stored on a path where it is absent")
+                    break
+                if have not in stored[0] and not any(tk.startswith(kind_ + "_") and tk.split("_")[1] in (("lon", "lat") if have.endswith("lon") else ("x", "y", "z")) for tk in stored[0]):
+                    bad = (p, f"with {have} already stored (e.g. supplied by the source file) and {want} absent, the value stored under {want} is computed from {sorted(stored[0])}, not from the stored {have}: the two representations of the same centre disagree")
+                    break
+            if bad:
+                run.violation("F-PATH/derived-from-stored", c, where(f), bad[1])
+            else:
+                run.holds("F-PATH/derived-from-stored", c, where(f), f"on all {len(rel)} path(s) with {have} present and {want} absent, {want} is derived from {have}")
+    run.floor("F-PATH/derived-from-stored", n, 3)
+
+
+def _mean_over_real_corners(run, P):
+    """A derived face centre is the normalised mean of the face's REAL corner vectors: every reduction over the corner
+    axis must see exactly face_nodes[f, 0:n_nodes_per_face[f]] - not the padded row, nor a row whose padding was
+    replaced by a repeated node (that biases the mean towards the repeated corner)."""
+    from ..astutil import LocalDefs
+    for fname in ("_construct_face_centroids", "_construct_face_centerpoints"):
+        f = P.func(f"uxarray/grid/coordinates.py:{fname}")
+        params = f.params()
+        fn_param = next((p for p in params if p == "face_nodes"), None)
+        cnt_param = next((p for p in params if p == "n_nodes_per_face"), None)
+        c = f"{f.key}:corner-set"
+        if fn_param is None or cnt_param is None:
+            run.incomplete("IDX/real-corners", c, where(f), "parameters face_nodes / n_nodes_per_face not found")
+            continue
+        # loop variables bound to the per-face count
+        count_vars = set()
+        for n in ast.walk(f.node):
+            it = tg = None
+            if isinstance(n, ast.For):
+                it, tg = n.iter, n.target
+            elif isinstance(n, ast.comprehension):
+                it, tg = n.iter, n.target
+            if it is not None and isinstance(it, ast.Call) and (dotted(it.func) or [""])[-1] == "enumerate" and it.args and norm(it.args[0]) == cnt_param and isinstance(tg, ast.Tuple) and len(tg.elts) == 2 and isinstance(tg.elts[1], ast.Name):
+                count_vars.add(tg.elts[1].id)
+        gathers = [n for n in ast.walk(f.node) if isinstance(n, ast.Subscript) and isinstance(n.value, ast.Name) and n.value.id == fn_param and isinstance(n.ctx, ast.Load)]
+        bad = []
+        good = 0
+        for g_ in gathers:
+            sl = g_.slice
+            elts = sl.elts if isinstance(sl, ast.Tuple) else [sl]
+            if len(elts) == 2 and isinstance(elts[1], ast.Slice) and elts[1].upper is not None and (norm(elts[1].upper) in count_vars or norm(elts[1].upper).startswith(cnt_param + "[")) and (elts[1].lower is None or norm(elts[1].lower) == "0"):
+                good += 1
+            elif norm(g_) in (f"{fn_param}.shape[0]", f"{fn_param}.shape") or (isinstance(sl, ast.Constant)):
+                continue
+            else:
+                # any other read of the corner table that feeds a coordinate gather
+                bad.append(g_)
+        whole = [n for n in ast.walk(f.node) if isinstance(n, ast.Name) and n.id == fn_param and isinstance(n.ctx, ast.Load)]
+        # uses of the bare table other than .shape / the count-sliced subscripts
+        sub_ids = {id(g_.value) for g_ in gathers}
+        shape_ids = {id(n.value) for n in ast.walk(f.node) if isinstance(n, ast.Attribute) and n.attr == "shape" and isinstance(n.value, ast.Name)}
+        bare = [n for n in whole if id(n) not in sub_ids and id(n) not in shape_ids]
+        if bad or bare:
+            w = (bad or bare)[0]
+            run.violation("IDX/real-corners", c, where(f, w), f"the corner table is read as {norm(w)[:60]} (not restricted to the first n_nodes_per_face[f] entries of the row): the centre of a face with fewer corners than the row width is averaged over padding or repeated nodes")
+        elif good:
+            run.holds("IDX/real-corners", c, where(f, gathers[0]), f"corners gathered as {fn_param}[f, 0:n_nodes_per_face[f]] ({good} gather(s))")
+        else:
+            run.incomplete("IDX/real-corners", c, where(f), "no gather from the corner table recognised")
